@@ -141,7 +141,19 @@ def build_native(ob, work):
     libs = ob.get("native_libs", [])
     p = subprocess.run(["gcc", "-fsanitize=address,undefined"] + objs + ["-o", exe, "-lm"] + libs, capture_output=True, text=True)
     if p.returncode != 0:
-        raise BuildError("native link failed: " + p.stderr[-4000:])
+        # functions the included real source references but the obligation never reaches (CBMC drops them):
+        # give them aborting bodies so that the native replay links
+        undef = sorted(set(re.findall(r"undefined reference to `([A-Za-z_][A-Za-z0-9_]*)'", p.stderr)))
+        if not undef:
+            raise BuildError("native link failed: " + p.stderr[-4000:])
+        stub = os.path.join(work, "undef_stubs.c")
+        with open(stub, "w") as f:
+            f.write("#include <stdio.h>\n#include <stdlib.h>\n")
+            for u in undef:
+                f.write('void %s(void) { printf("REPLAY-UNREACHED-STUB %s\\n"); abort(); }\n' % (u, u))
+        p = subprocess.run(["gcc", "-fsanitize=address,undefined", "-w"] + objs + [stub, "-o", exe, "-lm"] + libs, capture_output=True, text=True)
+        if p.returncode != 0:
+            raise BuildError("native link failed: " + p.stderr[-4000:])
     return exe
 
 
